@@ -74,17 +74,23 @@ def run(tier, seed):
     jobs = [("digests", c) for c in confs] + [("sites", ("sites", h, [0], "fwd")) for h in hs]
     with ThreadPoolExecutor(max_workers=16) as ex:
         results = list(ex.map(lambda j: child(j[1][1], j[1][2], tier, j[0], j[1][3]), jobs))
+    sites_ok = True
     for j, r in zip(jobs, results):
-        if "error" in r:
+        if "error" in r and j[0] == "sites":
+            # the scripted-RNG pass only names the culprit draw; if the library no longer draws
+            # through the seam it rebinds, the digests (real RNG) still decide the property
+            sites_ok = False
+            acc.count("site_recording_failed")
+        elif "error" in r:
             acc.notes.append(f"WORKER-CRASH child {j}: {r['error']}")
     if acc.notes:
         return acc, {"states": 1, "transitions": 1, "traces_validated_against_impl": 0,
                      "samples": ["child crashed"]}, []
     digest_runs = [(c, r) for (m, c), r in zip(jobs, results) if m == "digests"]
-    site_runs = [r for (m, c), r in zip(jobs, results) if m == "sites"]
+    site_runs = [r for (m, c), r in zip(jobs, results) if m == "sites"] if sites_ok else []
     # draw sites across hash seeds (names the culprit)
     site_of = {}
-    for other in site_runs[1:]:
+    for other in site_runs[1:] if site_runs else []:
         for i, (a, b) in enumerate(zip(site_runs[0]["sites"], other["sites"])):
             d = first_divergent_site(a, b)
             if d and i not in site_of:
